@@ -12,7 +12,7 @@ pub const VOLS: [f64; 13] = [-60.0, -20.0, -6.0, -0.5, -0.001, 0.0, 0.001, 0.5, 
 
 pub fn run(tier: Tier) -> i32 {
     let rep = Report::new("C16", tier, "model_checking");
-    rep.set_rule("SCOPE: volumes {-60,-20,-6,-0.5,-0.001,0,0.001,0.5,1,2,6,20,60} dB x voices (V0 mel-cepstral, generated mel-cepstral, generated LSP 3- and 2-stream, a generated voice with one very quiet state) x short utterances (plus, on one generated voice, the whole corpus twice as one utterance of 2912 labels at -6 and 20 dB) x (default condition + every single further deviation, incl. frame periods of 8193 and 70001 samples on the generated voices); oracle: every sample = 10^(v/20) x the 0 dB sample (rel 1e-12), get_volume within 1e-9, all other getters unchanged; plus a volume set before load_model (equal to setting it afterwards); plus streaming use: generate_step into pre-filled buffers of 1x/2x/3x fperiod + 1 samples, where the produced frame is scaled and everything else in the buffer equals the 0 dB run; distinct = (voice, other deviation, utterance, volume); non-trivial = v != 0 and non-empty waveform");
+    rep.set_rule("SCOPE: volumes {-60,-20,-6,-0.5,-0.001,0,0.001,0.5,1,2,6,20,60} dB x voices (V0 mel-cepstral, generated mel-cepstral, generated LSP 3- and 2-stream, a generated voice with one very quiet state) x short utterances (plus, on one generated voice, the whole corpus twice as one utterance of 2912 labels at -6 and 20 dB) x (default condition + every single further deviation, incl. frame periods of 8193 and 70001 samples on the generated voices); oracle: every sample = 10^(v/20) x the 0 dB sample (rel 1e-12), get_volume within 1e-9, all other getters unchanged; plus a volume set before load_model (equal to setting it afterwards); plus, on a stride, the settings copied with Condition::clone_from / Engine::clone_from onto a scratch object holding other values (same samples); plus streaming use: generate_step into pre-filled buffers of 1x/2x/3x fperiod + 1 samples, where the produced frame is scaled and everything else in the buffer equals the 0 dB run; distinct = (voice, other deviation, utterance, volume); non-trivial = v != 0 and non-empty waveform");
     rep.assume("volume lattice only; comparison skipped on samples that are non-finite in the 0 dB run");
     let corpus = labels::corpus();
     let mut utts: Vec<Vec<String>> = vec![vec![corpus[41].clone()], corpus[40..43].to_vec(), corpus[0..2].to_vec()];
@@ -110,6 +110,16 @@ pub fn run(tier: Tier) -> i32 {
             match synth(&e, u) {
                 Err(er) => rep.violation("synthesis", format!("synthesis fails at {} dB: {}", vol, er), rp),
                 Ok(w) => {
+                    // the same settings copied onto a scratch condition / engine with clone_from: same samples
+                    if *ui == 0 && (j + (vol.abs() * 10.0) as usize) % 3 == 0 {
+                        for whole in [false, true] {
+                            rep.cmp(1);
+                            match catch(|| synth(&via_clone_from(&e, whole), u)) {
+                                Ok(Ok(w2)) if bits_eq(&w2, &w) => {}
+                                other => rep.violation("clone-from", format!("an engine that got its settings (volume {} dB) through {}::clone_from onto a scratch object with other values renders differently: {:?}", vol, if whole { "Engine" } else { "Condition" }, other.map(|r| r.map(|x| x.len()))), rp.clone()),
+                            }
+                        }
+                    }
                     rep.outcome(hash_f64s(&w[..w.len().min(256)]));
                     if w.len() != w0.len() {
                         rep.violation("length", format!("{} samples at {} dB vs {} at 0 dB", w.len(), vol, w0.len()), rp);
